@@ -145,22 +145,27 @@ def pipeline_cases(repo: str, tucan, tier: str, seed: int):
                               f"Tucan.serialization._labels_by_partition {env} {GC}",
                               lambda gc=gc: se._labels_by_partition(gc), lambda r: L.jdict(r, L.jval, lambda v: v), unordered=True))
 
-            def afl(gc=gc):
-                m = gc.copy()
+            # the CPython side works on a copy (the functions mutate their argument); nx.Graph.copy() re-inserts the edges, which
+            # may change adjacency orders once, so the literal given to Lean is that of a copy (copying a copy changes nothing)
+            gcs = gc.copy()
+            GCS = L.graph(gcs)
+
+            def afl(gcs=gcs):
+                m = gcs.copy()
                 r = se._assign_final_labels(m)
                 return (r, m)
 
             cases.append(Case("serialization._assign_final_labels", name,
-                              f"Tucan.serialization._assign_final_labels {env} {FUEL} {GC} [(fun a b => pyLt a b), (fun a b => pyGt a b), (fun a b => pyEq a b)]",
+                              f"Tucan.serialization._assign_final_labels {env} {FUEL} {GCS} [(fun a b => pyLt a b), (fun a b => pyGt a b), (fun a b => pyEq a b)]",
                               afl, lambda r: [L.jgraph(r[0]), L.jgraph(r[1])]))
 
-            def ser(gc=gc):
-                m = gc.copy()
+            def ser(gcs=gcs):
+                m = gcs.copy()
                 r = se.serialize_molecule(m)
                 return (r, m)
 
             cases.append(Case("serialization.serialize_molecule", name,
-                              f"Tucan.serialization.serialize_molecule {env} {FUEL} {GC}",
+                              f"Tucan.serialization.serialize_molecule {env} {FUEL} {GCS}",
                               ser, lambda r: [r[0], L.jgraph(r[1])]))
             ms = gu.sort_molecule_by_attribute(se._assign_final_labels(gc.copy()), "atomic_number")
             MS = L.graph(ms)
